@@ -23,12 +23,6 @@ structure St where
 def splitList (s : String) (sep : String) : List String :=
   if s == "-" || s == "" then [] else s.splitOn sep
 
-def insertById (m : Meta) : List Meta → List Meta
-  | [] => [m]
-  | x :: xs => if m.id ≤ x.id then m :: x :: xs else x :: insertById m xs
-
-def sortById (l : List Meta) : List Meta := l.foldr insertById []
-
 def metaStr (withState : Bool) (m : Meta) : String :=
   s!"{m.id}:{m.start.toHex}:{m.end_.toHex}:{m.epoch.ver}:{m.epoch.conf}" ++
     (if withState then s!":{m.state}" else "")
@@ -158,8 +152,7 @@ def step (st : St) (toks : List String) : St × String :=
   | ["pd.snap"] => (st, snapStr false st.pd ++ "\t*")
   | ["pd.restart"] =>
     -- cmd/nokv/pd.go: load the persisted regions and re-upsert them in id order
-    let pd' := (sortById st.pd).foldl (fun acc m => (upsert st.pdc acc m).1) []
-    ({ st with pd := pd' }, "ok\t*")
+    ({ st with pd := restart st.pdc st.pd }, "ok\t*")
   -- ---------------- C25
   | ["cmd.validate", a, b, v, c, rv, rc, reqs] =>
     match parseMeta? s!"1:{a}:{b}:{v}:{c}", (splitList reqs ";").mapM parseReq? with
